@@ -296,6 +296,20 @@ def processLine (s : St) (line : String) : St × String :=
               (match db with | some d => lbStr r.1 d | none => "ok"))
         | none => (s, "bad-cache")
       | _ => (s, "bad-op")
+    | [mode, "clonefrom", i, j, base] =>
+      -- `d.clone_from(&c)` = `*d = c.clone()`: the clone is built, then the old `d` is dropped
+      match nats [i, j, base] with
+      | some [i, j, base] =>
+        match s.get? i, s.get? j with
+        | some (c, cb), some (d, db0) =>
+          let r := clone c base
+          let db := cb.map (·.clone base)
+          let res : Res := { cache := r.1, out := .cloned, evs := r.2.1 ++ dropCache d, status := r.2.2 }
+          let oldUb := match db0 with | some b => b.dropCache.ub | none => false
+          (s.set j (some (r.1, db.map compactB)), resLine s.p (mode == "F") true res (some r.1)
+            (if oldUb then "ub" else match db with | some x => lbStr r.1 x | none => "ok"))
+        | _, _ => (s, "bad-cache")
+      | _ => (s, "bad-op")
     | [mode, "drop", i] =>
       match i.toNat? with
       | some i =>
